@@ -26,7 +26,7 @@ RULE = ('each run = directory chain of depth 1-7 under a virtual root, per-level
         'look-alike), device boundaries from the seam\'s mount table (directory and/or Manifest file), '
         'and 2-5 discovery calls (start depth, allow_compressed, allow_xdev); non-trivial = at least one '
         'Manifest exists on the way up; distinct = distinct seam event-log digest')
-PLAN = {'quick': {'n': 4000, 'budget_s': 50, 'block': 50},
+PLAN = {'quick': {'n': 20000, 'budget_s': 90, 'block': 50},
         'thorough': {'n': 150000, 'budget_s': 900, 'block': 250}}
 ASSUMPTIONS = ['when a plain and a compressed Manifest exist in the same directory either may be named (statement silent)',
                'no error faults: the statement says nothing about unreadable Manifests during discovery']
